@@ -42,6 +42,7 @@ func (c *countingRT) RoundTrip(r *http.Request) (*http.Response, error) {
 }
 
 func checkC13(e *core.Env) {
+	curEnv = e
 	e.SetRule("matrix {http, https, in-process} x {creds require security, not} x 4 RPC kinds x credential metadata {disjoint, overlapping caller keys, empty, error} x {peer option, header option present/absent}, caller metadata random per cell; oracle: requests issued (counting RoundTripper), handler's incoming metadata = caller values then credential values per key, peer option and handler peer have an address and TLS auth info on TLS; distinct = matrix cells")
 	e.SetExhaustive(true)
 	plain := NewHTTPServer(&Service{}, carrierOpt{})
@@ -59,7 +60,7 @@ func checkC13(e *core.Env) {
 	carriers := []tcase{{plain, "http"}, {tls, "https"}, {tlsMux, "https"}, {inp, "inproc"}}
 	credKinds := []string{"disjoint", "overlap", "empty", "error"}
 	caseNo := 0
-	reps := e.N(1, 12)
+	reps := e.N(3, 40)
 	for rep := 0; rep < reps; rep++ {
 		for _, tc := range carriers {
 			for _, secure := range []bool{false, true} {
@@ -84,6 +85,7 @@ func checkC13(e *core.Env) {
 }
 
 func runC13Cell(e *core.Env, r *rand.Rand, c *Carrier, scheme string, secure bool, kind Kind, ck string, withOpts bool, cell string) {
+	curEnv = e
 	sc := genDeliveryScript(r, kind, true, false)
 	sc.ReqMD = genMD(r, 3, false)
 	sc.ReqMD["shared-key"] = []string{"caller-1", "caller-2"}
